@@ -108,6 +108,9 @@ Section Session.
     - exact G.
   Qed.
 
+  Lemma open_get (u : root) v s m : open u v s = Some m <-> get s (u, RManifest v) = Some (CMan m).
+  Proof. unfold open. destruct (get s _) as [[m0| |]|]; split; intro H; inversion H; subst; reflexivity. Qed.
+
   Lemma snapshot_stable r s e u v w : ok_event e = true ->
     snapshot u v s = Some w -> snapshot u v (apply_event oracle r s e) = Some w.
   Proof.
@@ -146,8 +149,8 @@ Section Session.
   Lemma value_stable r s e k val : ok_event e = true -> value_of k s = Some val -> value_of k (apply_event oracle r s e) = Some val.
   Proof.
     intros Ok H. destruct k as [u v [e0|]|u v|u v|u f rv id|u v|u v|u f]; cbn [value_of] in *; try discriminate H.
-    - unfold open in *. destruct (get s (u, RManifest v)) as [[m| |]|] eqn:G; try discriminate H.
-      destruct (event_frame r s e u v m Ok G) as [G' _]. rewrite G'. exact H.
+    - destruct (open u v s) as [m|] eqn:E; [|discriminate H]. apply open_get in E.
+      destruct (event_frame r s e u v m Ok E) as [G' _]. apply open_get in G'. rewrite G'. exact H.
     - destruct (snapshot u v s) as [w|] eqn:E; [|discriminate H]. rewrite (snapshot_stable r s e u v w Ok E). exact H.
     - destruct (snapshot u v s) as [w|] eqn:E; [|discriminate H]. rewrite (snapshot_stable r s e u v w Ok E). exact H.
     - destruct (get s (u, RDel f rv id)) as [c|] eqn:G; [|discriminate H].
@@ -246,3 +249,62 @@ Section Session.
     apply requests_functional; [apply ok_trace_of; assumption | exact NO].
   Qed.
 End Session.
+
+(* the execution that never evicts is one of the executions *)
+Lemma run_cache_exec {K V} (keqb : K -> K -> bool) (rs : list (request K V)) : forall c, exec keqb c rs (run_cache keqb c rs).
+Proof.
+  induction rs as [|[[|] [k l]] t IH]; intro c; cbn [run_cache].
+  - constructor.
+  - apply exec_insert. apply IH.
+  - apply exec_get. apply IH.
+Qed.
+
+Definition etag0 (m : manifest) : N := m_version m * 1000 + m_meta m.
+
+(* B2 in the model: version 1 (fragment 0 = sequence 10) is read, an Overwrite restarts fragment ids at 0
+   (fragment 0 = sequence 20), version 2 and again version 1 are read through the same cache without any eviction *)
+Definition tr_overwrite : list (N * event) :=
+  [(1, ECreate [10; 11] 5); (1, ERead false (QRowIdSeq 1 0)); (1, EOp (OOverwrite [20] 6));
+   (1, ERead false (QRowIdSeq 2 0)); (1, ERead false (QRowIdSeq 1 0))].
+
+Lemma overwrite_witness :
+  no_cleanup tr_overwrite = true /\ Known_C38_version_keyed_cache_across_recreate tr_overwrite = false /\
+  Known_C38_fragment_keyed_cache_across_overwrite oracle_max etag0 [] tr_overwrite = true /\
+  exists outs, exec ckey_eqb [] (requests oracle_max etag0 [] tr_overwrite) outs /\
+               map (fun r => snd (snd r)) (requests oracle_max etag0 [] tr_overwrite) = [VSeq 10; VSeq 20; VSeq 10] /\
+               outs = [VSeq 10; VSeq 10; VSeq 10].
+Proof.
+  split; [reflexivity|]. split; [reflexivity|]. split; [vm_compute; reflexivity|].
+  exists (run_cache ckey_eqb [] (requests oracle_max etag0 [] tr_overwrite)).
+  split; [apply run_cache_exec|]. split; vm_compute; reflexivity.
+Qed.
+
+(* drop-and-recreate in the model: the table directory is removed and another table is created at the same URI;
+   transaction, index metadata and row id index of "version 1" / "version 2" are served from the old table *)
+Definition tr_recreate : list (N * event) :=
+  [(1, ECreate [10; 11] 5); (1, EOp (OCreateIndex 60 61));
+   (1, ERead true (QTxn 2)); (1, ERead false (QIndexMeta 2)); (1, ERead false (QRowIdIndex 1)); (1, ERead false (QRowIdSeq 1 0));
+   (1, EDrop);
+   (1, ECreate [30] 8); (1, EOp (OAppend [31]));
+   (1, ERead false (QTxn 2)); (1, ERead false (QIndexMeta 2)); (1, ERead false (QRowIdIndex 1)); (1, ERead false (QRowIdSeq 1 0))].
+
+Lemma recreate_witness :
+  no_cleanup tr_recreate = true /\ Known_C38_version_keyed_cache_across_recreate tr_recreate = true /\
+  exists outs, exec ckey_eqb [] (requests oracle_max etag0 [] tr_recreate) outs /\
+               outs <> map (fun r => snd (snd r)) (requests oracle_max etag0 [] tr_recreate) /\
+               (* each of the four second reads is answered with the old table's object *)
+               firstn 4 outs = skipn 4 outs /\
+               forall i, (i < 4)%nat -> nth i (skipn 4 outs) (VSeq 0) <> nth i (skipn 4 (map (fun r => snd (snd r)) (requests oracle_max etag0 [] tr_recreate))) (VSeq 0).
+Proof.
+  split; [reflexivity|]. split; [reflexivity|].
+  exists (run_cache ckey_eqb [] (requests oracle_max etag0 [] tr_recreate)).
+  split; [apply run_cache_exec|]. split; [vm_compute; discriminate|]. split; [vm_compute; reflexivity|].
+  intros i Hi. destruct i as [|[|[|[|i]]]]; try lia; vm_compute; discriminate.
+Qed.
+
+(* deletion-file keys survive drop-and-recreate when the id is fresh; manifest keys carry the e-tag *)
+Definition tr_deletion_ok : list (N * event) :=
+  [(1, ECreate [10; 11] 5); (1, EOp (ODelete 0 77)); (1, ERead false (QDeletion 2 0)); (1, ERead false (QManifest 2));
+   (1, EOp (OTagSet 1 1)); (1, EOp (OAppend [12])); (2, ECreate [40] 9); (2, EOp (ODelete 0 78));
+   (1, ERead false (QDeletion 3 0)); (2, ERead false (QDeletion 2 0)); (1, ERead false (QTxn 2)); (2, ERead false (QTxn 2));
+   (1, ERead false (QManifest 2)); (2, ERead false (QManifest 2)); (1, ERead false (QRowIdMask 3)); (1, ERead false (QIndexMeta 3))].
